@@ -139,6 +139,20 @@ CLAIMED = {
    note="Trusted: Coq kernel; RefDB as specification; DdlExecutor / catalog tied by correspondence only.",
    technique="Coq proof (frame and per-statement catalog laws, history erasure) + differential correspondence with before/after oracle",
    design="7 (C15)"),
+ "C10": dict(
+   text="Props/C10.v: the structural checker run on every dumped tree is sound for trees of any height and fan-out - what it accepts "
+        "has strictly increasing keys across its leaves, separators that bound their subtrees, and a descent procedure that finds "
+        "exactly the stored keys (C10_checker_sound); the abstract map every tree is compared with is a finite map along any "
+        "operation sequence (C10_map_refinement: lookups return the latest payload, scans list present keys once, in order).  On "
+        "every run real trees built through the facade (four key types, page/min-keys/siblings settings, random/ascending/"
+        "descending/zigzag orders, growing and shrinking updates, delete-all-then-reinsert, heights up to 3) are dumped page by "
+        "page; each dump goes through the verified checker inside Coq and through independent python checks (depth, sibling "
+        "links, contents), and every answer is compared with the abstract map.  Rows larger than a twentieth of the page break "
+        "the tree (recorded finding with witness; two of its causes were fixed), as do integer keys beyond 2^53 (C19 finding).",
+   note="Trusted: Coq kernel; dump produced by the facade from live pages; key order of each type = python order of the generator "
+        "(comparison functions are C19); the balancing algorithm itself is not modelled, its results are judged.",
+   technique="Coq proof (checker soundness by induction over trees; map refinement) + verified checker evaluated on implementation dumps + differential correspondence",
+   design="7 (C10)"),
 }
 NOT_YET = "not claimed yet: model and proofs under construction in this session (see DESIGN.md section 10, build order)"
 
